@@ -98,7 +98,7 @@ type trzszTransfer struct {
 	fileNameMap      map[int]string
 	windowsProtocol  bool
 	flushInTime      bool
-	bufInitWG        sync.WaitGroup
+	bufInitAckChan   chan struct{}
 	bufInitPhase     atomic.Bool
 	bufferSize       atomic.Int64
 	savedSteps       atomic.Int64
@@ -146,12 +146,21 @@ func newTransfer(writer io.Writer, stdinState *term.State, flushInTime bool, log
 			Newline:    "\n",
 			MaxBufSize: 10 * 1024 * 1024,
 		},
-		logger: logger,
-		bgChan: make(chan struct{}, 1),
+		logger:         logger,
+		bgChan:         make(chan struct{}, 1),
+		bufInitAckChan: make(chan struct{}, 1),
 	}
 	t.bufInitPhase.Store(true)
 	t.bufferSize.Store(10240)
 	return t
+}
+
+// notifyBufInitAck tells the data encoder that the chunk it is waiting for has been acknowledged.
+func (t *trzszTransfer) notifyBufInitAck() {
+	select {
+	case t.bufInitAckChan <- struct{}{}:
+	default:
+	}
 }
 
 func getHelloConstant(uniqueID string, port int) (string, string) {
